@@ -354,6 +354,10 @@ def random_geom(rng, typ=None, style="realistic") -> dict:
 def is_shapely_valid(geom) -> bool:
     from soundevent.geometry import conversion
 
+    if getattr(geom, "type", None) in ("TimeStamp", "TimeInterval", "BoundingBox"):
+        # closed-form types are valid as validated by the data model; one drawn without duration or bandwidth is a
+        # legitimate geometry of zero extent although shapely calls its flat ring invalid
+        return True
     try:
         s = getattr(conversion.geometry_to_shapely, "__rv_orig__", conversion.geometry_to_shapely)(geom)
         return bool(s.is_valid) and not s.is_empty
